@@ -4,7 +4,7 @@
    (FRaise: the call raises; FBad: exists -> False, read/open -> unparseable bytes, listing -> an extra
    "../x" entry, stat/delete -> raises); any number of faults, anywhere. *)
 From Coq Require Import ZArith String Ascii List Bool.
-Require Import DS.Model.PyStr DS.Gen.GenNorm DS.Model.GC DS.Proofs.GCNormProofs DS.Proofs.GCProofs.
+Require Import DS.Model.PyStr DS.Gen.GenNorm DS.Model.GC DS.Proofs.GCNormProofs DS.Proofs.GCProofs DS.Proofs.GCFaultProofs.
 Import ListNotations.
 Open Scope string_scope.
 Open Scope Z_scope.
@@ -19,3 +19,68 @@ Theorem C07_fail_closed : forall (tp : string) (grace now timeout : Z) (o : orac
   wf_store snaps st -> gc_safe_spec now grace timeout snaps st (gc_run tp grace now timeout o snaps st).
 Proof. exact gc_safe_all_faults. Qed.
 Print Assumptions C07_fail_closed.
+
+(* Every damage class of a reachable manifest list (missing; or present but not parseable as a list: garbage, empty,
+   truncated Avro, a file of the other kind) aborts in the list phase having deleted nothing -- under ANY additional
+   faults; likewise for every reachable manifest (the abort may come one phase earlier if a fault hits a list). *)
+Theorem C07_damage : forall (tp : string) (grace now timeout : Z) (o : oracle) (snaps : list string) (st : store) (k : key),
+  wf_store snaps st ->
+  (ref_list snaps k -> damaged_list st k ->
+     r_out (gc_run tp grace now timeout o snaps st) = Aborted PhLists /\ r_deleted (gc_run tp grace now timeout o snaps st) = []) /\
+  (ref_manifest snaps st k -> damaged_manifest st k ->
+     (r_out (gc_run tp grace now timeout o snaps st) = Aborted PhLists \/ r_out (gc_run tp grace now timeout o snaps st) = Aborted PhManifests)
+     /\ r_deleted (gc_run tp grace now timeout o snaps st) = []).
+Proof. exact damage_aborts. Qed.
+Print Assumptions C07_damage.
+
+(* Transient failures: a collection that gets past the reachability phase read every reachable list and manifest with no
+   effective fault at all -- the only fault a successful read can have absorbed is an OSError / garbage on open_file of
+   a file that is in the legacy JSON format anyway (the Avro attempt fails either way and the JSON read was fault-free).
+   Equivalently: any other fault on any exists / open_file / read_file of a reachable list or manifest aborts. *)
+Theorem C07_transient : forall (tp : string) (grace now timeout : Z) (o : oracle) (snaps : list string) (st : store),
+  r_out (gc_run tp grace now timeout o snaps st) <> Aborted PhLists ->
+  r_out (gc_run tp grace now timeout o snaps st) <> Aborted PhManifests ->
+  exists mpaths g1 entries g2,
+    read_all WList o (mkG 0 st []) (norm_set tp snaps) = (Some mpaths, g1)
+    /\ read_all WManifest o g1 (norm_set tp mpaths) = (Some entries, g2)
+    /\ (forall c f, In (c, Some f) (g_trace g1) -> absorbed_open st WList c f)
+    /\ (forall c f, In (c, Some f) (g_trace g2) -> absorbed_open st WList c f \/ absorbed_open st WManifest c f).
+Proof. exact reach_phase_fault_free. Qed.
+Print Assumptions C07_transient.
+
+(* A marker whose stat or delete fails -- more generally ANY marker that is still present after the run -- kept
+   everything it denotes (its payload path, or when the payload is unusable every path its name can denote) out of the
+   deleted set; and a marker disappears only when it is older than the abandonment timeout. *)
+Theorem C07_marker_keep : forall (tp : string) (grace now timeout : Z) (o : oracle) (snaps : list string) (st : store),
+  wf_store snaps st ->
+  let r := gc_run tp grace now timeout o snaps st in
+  (forall mk ob, lookup mk (g_store (r_final r)) = Some ob -> is_marker_key mk ->
+     forall k, marker_denotes mk ob k -> ~ In k (r_deleted r)) /\
+  (forall mk ob, lookup mk st = Some ob -> is_marker_key mk -> lookup mk (g_store (r_final r)) = None -> mtime ob < now - timeout).
+Proof. exact marker_keep. Qed.
+Print Assumptions C07_marker_keep.
+
+(* Non-vacuity: the example store of C05 (two retained snapshots, a live transaction, orphans) at table location "data":
+   a transient failure on the second manifest list aborts with nothing deleted; a failing marker listing aborts; a failing
+   read of the live transaction's marker leaves its file protected while the orphans are still removed; and with the
+   manifest m2 replaced by garbage the run aborts in the manifest phase. *)
+Require Import DS.Props.C05.
+Definition run_with (o : oracle) (st : store) := gc_run "data" 1000 1000000 86400000 o ex_snaps st.
+Definition ex_damaged : store :=
+  map (fun p => if String.eqb (fst p) "metadata/manifests/m2.avro" then (fst p, mkObj 1000 CGarbage) else p) ex_st.
+Example C07_nonvacuous :
+  wf_store ex_snaps ex_st /\ wf_store ex_snaps ex_damaged
+  /\ (r_out (run_with (oracle_of [(5%nat, FRaise)]) ex_st), r_deleted (run_with (oracle_of [(5%nat, FRaise)]) ex_st)) = (Aborted PhLists, [])
+  /\ (r_out (run_with (oracle_of [(12%nat, FRaiseX)]) ex_st), r_deleted (run_with (oracle_of [(12%nat, FRaiseX)]) ex_st)) = (Aborted PhMarkers, [])
+  /\ (r_out (run_with (oracle_of [(14%nat, FBad)]) ex_st), r_deleted (run_with (oracle_of [(14%nat, FBad)]) ex_st))
+       = (Done, ["metadata/manifests/old.avro"; "data/orphan.parquet"])
+  /\ (r_out (run_with no_faults ex_damaged), r_deleted (run_with no_faults ex_damaged)) = (Aborted PhManifests, [])
+  /\ ref_manifest ex_snaps ex_damaged "metadata/manifests/m2.avro" /\ damaged_manifest ex_damaged "metadata/manifests/m2.avro".
+Proof.
+  split; [apply wf_storeb_sound; vm_compute; reflexivity|]. split; [apply wf_storeb_sound; vm_compute; reflexivity|].
+  split; [vm_compute; reflexivity|]. split; [vm_compute; reflexivity|]. split; [vm_compute; reflexivity|]. split; [vm_compute; reflexivity|].
+  split.
+  - exists "metadata/manifests/l2.avro", ["metadata/manifests/m1.avro"; "metadata/manifests/m2.avro"], "metadata/manifests/m2.avro".
+    repeat split; simpl; auto. eexists; split; reflexivity.
+  - vm_compute. reflexivity.
+Qed.
